@@ -69,6 +69,38 @@ type watchCase struct {
 	write []string
 }
 
+// sequences after which the watched key looks exactly as before — and was nevertheless modified
+func c10Pairs() [][][]string {
+	return [][][]string{
+		{{"SET", "k", "hello"}, {"RENAME", "k", "t"}, {"RENAME", "t", "k"}},
+		{{"SET", "k", "hello"}, {"RENAME", "k", "t1"}, {"RENAMENX", "t1", "t2"}, {"RENAME", "t2", "k"}},
+		{{"RPUSH", "k", "a", "b"}, {"RENAME", "k", "t"}, {"RENAME", "t", "k"}},
+		{{"SET", "k", "hello"}, {"DEL", "k"}, {"SET", "k", "hello"}},
+		{{"SET", "k", "hello"}, {"SET", "k", "other"}, {"SET", "k", "hello"}},
+		{{"SET", "k", "hello"}, {"APPEND", "k", "x"}, {"SETRANGE", "k", "0", "hello"}, {"GETDEL", "k"}, {"SET", "k", "hello"}},
+		{{"RPUSH", "k", "a", "b"}, {"RPUSH", "k", "c"}, {"RPOP", "k"}},
+		{{"RPUSH", "k", "a", "b"}, {"LPOP", "k"}, {"LPUSH", "k", "a"}},
+		{{"RPUSH", "k", "a", "b"}, {"LSET", "k", "0", "z"}, {"LSET", "k", "0", "a"}},
+		{{"SADD", "k", "m1"}, {"SADD", "k", "m2"}, {"SREM", "k", "m2"}},
+		{{"SADD", "k", "m1"}, {"SMOVE", "k", "o", "m1"}, {"SMOVE", "o", "k", "m1"}},
+		{{"HSET", "k", "f", "1"}, {"HSET", "k", "f", "2"}, {"HSET", "k", "f", "1"}},
+		{{"HSET", "k", "f", "1"}, {"HINCRBY", "k", "f", "5"}, {"HINCRBY", "k", "f", "-5"}},
+		{{"HSET", "k", "f", "1"}, {"HSET", "k", "g", "1"}, {"HDEL", "k", "g"}},
+		{{"SET", "k", "10"}, {"INCR", "k"}, {"DECR", "k"}},
+		{{"SET", "k", "hello"}, {"EXPIRE", "k", "1000"}, {"PERSIST", "k"}},
+		{{"SET", "k", "hello", "EX", "1000"}, {"PERSIST", "k"}, {"EXPIRE", "k", "1000"}},
+		{{"SET", "k", "hello"}, {"SETBIT", "k", "7", "1"}, {"SETBIT", "k", "7", "0"}},
+		{{"SET", "k", "hello"}, {"COPY", "k", "t"}, {"DEL", "k"}, {"RENAME", "t", "k"}},
+		{{"SET", "k", "hello"}, {"COPY", "k", "t"}, {"COPY", "t", "k", "REPLACE"}},
+		{{"SET", "k", "hello"}, {"FLUSHDB"}, {"SET", "k", "hello"}},
+		{{"RPUSH", "k", "a"}, {"LMOVE", "k", "t", "LEFT", "LEFT"}, {"LMOVE", "t", "k", "LEFT", "LEFT"}},
+		{{"RPUSH", "k", "a", "b"}, {"LMOVE", "k", "k", "LEFT", "RIGHT"}, {"LMOVE", "k", "k", "RIGHT", "LEFT"}},
+		{{"SET", "k", "hello"}, {"BITOP", "NOT", "k", "k"}, {"BITOP", "NOT", "k", "k"}},
+		{{"SADD", "k", "m1"}, {"SUNIONSTORE", "k", "k"}},
+		{{"RPUSH", "k", "b", "a"}, {"SORT", "k", "ALPHA", "STORE", "t"}, {"RENAME", "t", "k"}, {"LMOVE", "k", "k", "LEFT", "RIGHT"}},
+	}
+}
+
 func c10Table() []watchCase {
 	str := [][]string{{"SET", "k", "hello"}}
 	num := [][]string{{"SET", "k", "10"}}
@@ -205,6 +237,12 @@ func init() {
 					for j := 0; j < g.r.Intn(3); j++ {
 						ops = append(ops, g.dataOp(1))
 					}
+					if g.chance(0.4) {
+						// WATCH inside MULTI is refused and watches nothing: a later change of that key by the
+						// other connection must not abort this transaction
+						wk := g.key()
+						ops = append(ops, mkOp(1, g.kw("watch"), wk), mkOp(2, "APPEND", wk+"w", "x"), mkOp(2, "DEL", wk), mkOp(2, "RPUSH", wk, "n"))
+					}
 				}
 				switch end {
 				case 0, 1:
@@ -278,6 +316,28 @@ func init() {
 		return runHistories(cfg, res, n, func(i int) History {
 			var ops []Op
 			g.newHistory()
+			if i%5 == 4 && i%10 == 9 || i%5 == 3 && i%2 == 0 {
+				// the watched key is changed and changed back: the setup (first command) runs before WATCH
+				pairs := c10Pairs()
+				sq := pairs[(start+i/5)%len(pairs)]
+				ops = append(ops, mkOp(1, sq[0]...), mkOp(1, "WATCH", "k"))
+				before := g.chance(0.5) // by the watcher itself before MULTI, or by the other connection after it
+				if !before {
+					ops = append(ops, mkOp(1, "MULTI"), mkOp(1, "SET", "kq", "queued"))
+				}
+				for _, a := range sq[1:] {
+					who := 2
+					if before && g.chance(0.5) {
+						who = 1
+					}
+					ops = append(ops, mkOp(who, a...))
+				}
+				if before {
+					ops = append(ops, mkOp(1, "MULTI"), mkOp(1, "SET", "kq", "queued"))
+				}
+				ops = append(ops, mkOp(1, "EXEC"), mkOp(1, "GET", "kq"), mkOp(2, "TYPE", "k"), mkOp(2, "TTL", "k"))
+				return History{Ops: ops}
+			}
 			if i%5 < 3 {
 				// systematic: one write of the table, alone between WATCH and EXEC, by either connection
 				tc := table[(start+i/5*3+i%5)%len(table)]
@@ -462,6 +522,19 @@ func init() {
 				case x < 68:
 					for c := 1; c <= 3; c++ {
 						ops = append(ops, mkOp(c, g.kw("multi")), mkOp(c, "HGETALL", g.key()), mkOp(c, "SMEMBERS", g.key()), mkOp(c, "GET", g.key()), mkOp(c, g.kw("exec")))
+					}
+				case x < 74:
+					// replies with deep or unusual RESP3 structure (maps inside arrays inside arrays, doubles, verbatim text)
+					a := [][]string{{"COMMAND", "INFO", "get"}, {"COMMAND", "INFO", "lmpop", "sintercard", "set"}, {"COMMAND", "DOCS", "set"}, {"COMMAND", "DOCS", "hset", "lcs"},
+						{"COMMAND", "COUNT"}, {"COMMAND", "LIST"}, {"COMMAND", "INFO", "hgetall", "nosuchcommand"}, {"COMMAND", "DOCS"}, {"COMMAND", "INFO"},
+						{"INFO"}, {"INFO", "server"}, {"CLIENT", "INFO"}, {"LCS", g.key(), g.key(), "IDX", "WITHMATCHLEN"}, {"HRANDFIELD", g.key(), "3", "WITHVALUES"}, {"HRANDFIELD", g.key(), "-3", "WITHVALUES"},
+						{"HINCRBYFLOAT", "hfl", "f", "0.5"}, {"SORT", g.key(), "ALPHA", "GET", "#", "GET", "nokey_*"}, {"BITFIELD", g.key(), "GET", "u8", "0", "OVERFLOW", "FAIL", "INCRBY", "u2", "0", "3"},
+						{"COMMAND", "HELP"}, {"MULTI"}}[g.r.Intn(20)]
+					for c := 1; c <= 3; c++ {
+						ops = append(ops, mkOp(c, a...))
+						if a[0] == "MULTI" {
+							ops = append(ops, mkOp(c, "COMMAND", "INFO", "get"), mkOp(c, "HINCRBYFLOAT", "hfl", "f", "0.25"), mkOp(c, "LCS", g.key(), g.key(), "IDX"), mkOp(c, "EXEC"))
+						}
 					}
 				default:
 					ops = append(ops, g.dataOp(1+g.r.Intn(3)))
